@@ -188,7 +188,7 @@ Definition finish (c : N) (snap : list (N * N)) (q : list (N * N * reply)) : che
   end.
 
 Inductive event :=
-| Sent (h n : N)                 (* Send/CancelTx succeeded: pending entry + waitForTxn's watchTx *)
+| Sent (h n : N)                 (* Send/CancelTx succeeded: the sentTxs entry (evmclient.go, under c.mtx) *)
 | Watch (h : N)                  (* WaitForReceipt(h) up to and including its watchTx *)
 | WatchRaw (h n : N)             (* watchTx(h, n) *)
 | Poll (blk nonce : option N) (newtx : bool)   (* one iteration of watchLoop; None = the call failed *)
@@ -198,7 +198,12 @@ Inductive event :=
 | Proc (fb : option reply)       (* handle the next element; fb = answer of the individual query *)
 | InternalRun (w : N)            (* the waitForTxn goroutine of waiter w consumes its outcome *)
 | Close
-| Drain.
+| Drain
+| InternalWatch (h n : N)        (* the goroutine started by waitForTxn(h, n) calls watchTx *)
+| PollLost (b c : N) (newtx : bool).
+                                 (* an iteration of watchLoop that read block b and confirmed nonce c while no
+                                    check is in flight but checkLoop is not (yet) back in its select: the
+                                    non-blocking send on blockUpdate takes the default branch *)
 
 Definition proc (v : variant) (s : mon) (c n h : N) (r : reply) (fb : option reply) : mon :=
   let s := add_answer s (c, h, r) in
@@ -225,12 +230,23 @@ Definition step (v : variant) (s : mon) (e : event) : mon :=
   if panicked s then s else
   match e with
   | Sent h n =>
+      (* Send / CancelTx, under EvmClient.mtx: c.sentTxs[hash] = {nonce}; the goroutine started by
+         waitForTxn registers later (InternalWatch) *)
+      {| wait := wait s; closed := closed s; wl_exited := wl_exited s; drained := drained s;
+         last_block := last_block s; last_conf := last_conf s; chk := chk s; closedch := closedch s;
+         pending := (h, n) :: remove_key h (pending s);
+         internal := internal s; flagged := filter (fun k => negb (k =? h)) (flagged s); next := next s;
+         delivered := delivered s; watchers := watchers s;
+         refused := refused s; sent := sent s ++ [h]; confs := confs s; answers := answers s;
+         panicked := panicked s |}
+  | InternalWatch h n =>
+      (* the waitForTxn goroutine of (h, n): watchTx under txmonitor.mtx, any time after its Sent *)
       let '(s1, w) := fresh s in
       let s2 := {| wait := wait s1; closed := closed s1; wl_exited := wl_exited s1; drained := drained s1;
          last_block := last_block s1; last_conf := last_conf s1; chk := chk s1; closedch := closedch s1;
-         pending := (h, n) :: remove_key h (pending s1);
-         internal := internal s1 ++ [(w, h)]; flagged := filter (fun k => negb (k =? h)) (flagged s1); next := next s1; delivered := delivered s1; watchers := watchers s1;
-         refused := refused s1; sent := sent s1 ++ [h]; confs := confs s1; answers := answers s1;
+         pending := pending s1;
+         internal := internal s1 ++ [(w, h)]; flagged := flagged s1; next := next s1; delivered := delivered s1; watchers := watchers s1;
+         refused := refused s1; sent := sent s1; confs := confs s1; answers := answers s1;
          panicked := panicked s1 |} in
       watch_tx v s2 w h n
   | Watch h =>
@@ -299,6 +315,14 @@ Definition step (v : variant) (s : mon) (e : event) : mon :=
           end
       | _, _ => s
       end
+  | PollLost b c newtx =>
+      if wl_exited s then s else
+      if (b <=? last_block s) && negb newtx then s else
+      {| wait := wait s; closed := closed s; wl_exited := wl_exited s; drained := drained s;
+         last_block := b; last_conf := c; chk := chk s;
+         closedch := closedch s; pending := pending s; internal := internal s; flagged := flagged s; next := next s;
+         delivered := delivered s; watchers := watchers s; refused := refused s; sent := sent s;
+         confs := confs s ++ [c]; answers := answers s; panicked := panicked s |}
   | Close =>
       {| wait := wait s; closed := true; wl_exited := wl_exited s; drained := drained s;
          last_block := last_block s; last_conf := last_conf s; chk := chk s; closedch := closedch s;
@@ -369,3 +393,40 @@ Fixpoint drive (n h c : N) (snap : list (N * N)) (q : list (N * N * reply)) (mid
    interleaving with other events, bring the element (n, h, r) to the head of the queue. *)
 Definition complete_check (n h c : N) (snap : list (N * N)) (mid : list event) (r : reply) : Prop :=
   exists snap' q', drive n h c snap [] mid = Some (snap', (n, h, r) :: q').
+
+(* ---- derived notions used in the statements of Properties/C09.v ---------------------------- *)
+(* the outcome the node's answers for hash h oblige: r = its element of the batch reply, fb = the
+   answer of the individual query (None: not asked) *)
+Definition resolves (h : N) (r : reply) (fb : option reply) : option wout :=
+  match r with
+  | RReceipt st => Some (OReceipt h st)
+  | RNotFound => Some OCancelled
+  | _ => match fb with
+         | Some (RReceipt st) => Some (OReceipt h st)
+         | Some RNotFound => Some OCancelled
+         | _ => None
+         end
+  end.
+
+(* ---- which step delivers an outcome, and why -------------------------------------------------- *)
+Definition cause (s : mon) (e : event) (w : N) (o : wout) : Prop :=
+  match o with
+  | OClosed =>
+      (e = Drain /\ closed s = true /\ exists n h, In (n, h, w) (wait s)) \/
+      (drained s = true /\ closed s = true /\ w = next s /\
+       exists h n, e = Watch h \/ e = WatchRaw h n \/ e = InternalWatch h n)
+  | _ =>
+      exists fb c snap n h r q, e = Proc fb /\ chk s = InFlight c snap ((n, h, r) :: q) /\
+        In (n, h, w) (wait s) /\ In (w, h, n) (watchers s) /\ n < c /\ resolves h r fb = Some o
+  end.
+
+(* the confirmed nonce c of a check comes from a poll that found the checker idle and handed over *)
+Definition poll_src (evs : list event) (c : N) : Prop :=
+  exists pre b nt post, evs = pre ++ Poll (Some b) (Some c) nt :: post /\
+    chk (run current pre) = Idle /\ chk (run current (pre ++ [Poll (Some b) (Some c) nt])) = Handed c.
+(* the queued element (n, h, r) of the check with confirmed nonce c comes from a batch reply that
+   arrived while that check was waiting for one, had (n, h) in its snapshot -- the batch asked for
+   h -- and answered r for h *)
+Definition batch_src (evs : list event) (c n h : N) (r : reply) : Prop :=
+  exists pre rs post snap, evs = pre ++ BatchReply rs :: post /\
+    chk (run current pre) = InFlight c snap [] /\ In (n, h) snap /\ In (h, r) rs.
